@@ -3,12 +3,13 @@
 # Applies the patch to a scratch worktree of /repo HEAD (so that long background runs against /repo are not
 # disturbed), runs the check against it (VERIF_REPO), prints the verdict lines, removes the worktree.
 p=$(readlink -f "$1"); id=$2; tier=${3:-quick}
-wt=/tmp/trypatch-$id-$$
+V=${VERIF_DIR:-/verif}
+wt=/tmp/trypatch-$id-$$-$RANDOM
 git -C /repo worktree add -q --detach $wt HEAD || exit 2
 ( cd $wt && git apply "$p" ) || { echo "patch does not apply"; git -C /repo worktree remove --force $wt; exit 2; }
-(cd /verif && VERIF_REPO=$wt ./check "$id" --tier "$tier" 2>&1 | grep -E "^VIOLATION|^KNOWN|^\[$id\] tier" )
-for f in /verif/evidence/replays/$id-*.json; do [ -f "$f" ] && /venv/bin/python -c "
+(cd $V && VERIF_REPO=$wt ./check "$id" --tier "$tier" 2>&1 | grep -E "^VIOLATION|^KNOWN|^\[$id\] tier" )
+for f in $V/evidence/replays/$id-*.json; do [ -f "$f" ] && /venv/bin/python -c "
 import json;d=json.load(open('$f'));print('   replay:',d.get('key'),'|',str(d.get('what') or d.get('note'))[:240])"; done
 git -C /repo worktree remove --force $wt
 # restore the evidence of the unchanged tree
-(cd /verif && git checkout -q -- evidence/$id.json 2>/dev/null; rm -f evidence/replays/$id-*.json)
+(cd $V && git checkout -q -- evidence/$id.json 2>/dev/null; rm -f evidence/replays/$id-*.json)
